@@ -378,12 +378,32 @@ func c08Refusal(c *Case, shape int) {
 	c.Held()
 }
 
+// arguments are passed by value also when they read a location that does not exist: the callee
+// assigning its parameter must leave the caller's containers alone
+func c08MissingArgs(c *Case) {
+	touch := &Func{Name: "touch", Params: []string{"p"}, Body: Blk(&If{C: Bin("==", V("p"), &NullLit{}), Then: Blk(asg(V("p"), N("7")))}, asg(Mem(V("q"), "inner"), N("1")), &Return{X: V("p")})}
+	setp := &Func{Name: "setp", Params: []string{"p"}, Body: Blk(asg(V("p"), Arr(N("1"))), ES(Meth(V("p"), "length")), &Return{X: V("p")})}
+	two := &Func{Name: "two", Params: []string{"x", "y"}, Body: Blk(asg(V("x"), Bin("+", V("y"), N("1"))), asg(V("y"), S("changed")), &Return{X: V("x")})}
+	args := []Expr{Mem(V("$"), "nope"), Idx(Mem(V("$"), "list"), N("5")), Mem(Mem(V("$"), "a"), "deep"), Mem(V("o"), "k"), Idx(V("arr"), N("3")), Mem(Mem(V("fresh"), "x"), "y"), Mem(V("$"), "n"), Idx(V("arr"), N("0"))}
+	for i, a := range args {
+		for _, fn := range []string{"touch", "setp"} {
+			body := Blk(asg(V("o"), obj1("z", N("1"))), asg(V("arr"), Arr(N("1"), N("2"))),
+				Pr(S("r"), jsonOf(CallE(V(fn), a))), Pr(S("after"), jsonOf(V("$")), jsonOf(V("o")), jsonOf(V("arr")), &IsExpr{X: V("p"), T: "unknown"}, &IsExpr{X: V("q"), T: "unknown"}),
+				Pr(S("two"), jsonOf(CallE(V("two"), a, Mem(V("$"), "n"))), jsonOf(V("$"))))
+			p := &Program{Items: []any{touch, setp, two, &Rule{Kind: "pattern", Body: body}}}
+			c.NonTrivial(fmt.Sprintf("missing-arg:%d:%s", i, fn))
+			c.Count("missing_location_arguments")
+			m2(c, &M2Case{Prog: p, Files: []InFile{{Name: "in.json", Data: []byte(`{"a": {"b": 1}, "list": [1, 2], "n": 5}`)}}, WantRoot: true, CheckM4: true, Desc: "argument reads a missing location, callee assigns the parameter"})
+		}
+	}
+}
+
 func c08Cases(tier string) int {
 	base := len(c08LongProgs) + len(c08Runaway)
 	if tier == "thorough" {
 		return base + len(c08LongProgs)*4 + 250000
 	}
-	return base + 10000
+	return base + 30000
 }
 
 func c08Run(c *Case) {
@@ -394,6 +414,9 @@ func c08Run(c *Case) {
 		c08LongRun(c, c08LongProgs[i], 5000)
 	case i < nl+len(c08Runaway):
 		c08Refusal(c, i-nl)
+		if i == nl {
+			c08MissingArgs(c)
+		}
 	case c.Tier == "thorough" && i < nl+len(c08Runaway)+nl*4:
 		j := i - nl - len(c08Runaway)
 		c08LongRun(c, c08LongProgs[j%nl], []int{4097, 9000, 20000, 50000}[j/nl])
